@@ -246,7 +246,7 @@ def rand_rotation(rng):
 
 def gen_ns_case(rng, kind=None, rbuild_factors=(1,)):
     """o_ns lines (one per build radius; same model and queries): cell, group, ncs, build radius, atoms, queries"""
-    kind = kind or rng.choice(['normal', 'normal', 'oblique', 'tiny', 'tiny', 'noncrystal', 'ncs', 'bigk'])
+    kind = kind or rng.choice(['normal', 'normal', 'oblique', 'tiny', 'tiny', 'noncrystal', 'ncs', 'bigk', 'elongated'])
     ncs = []
     if kind == 'noncrystal':
         sg = '-'
@@ -255,10 +255,19 @@ def gen_ns_case(rng, kind=None, rbuild_factors=(1,)):
             ncs.append(rand_rotation(rng) + [round(rng.uniform(-15, 15), 3) for _ in range(3)])
     else:
         sg = rng.choice(NS_GROUPS[1:])
+        if kind == 'elongated':
+            # one axis ten times longer than the others, one or two atoms: the nearest image can be many bins away along
+            # that axis only (find_nearest_atom must widen its search up to the LONGEST bin count)
+            sg = rng.choice(['P 1', 'P 21 21 21', 'P 1 21 1'])
         cell = ns_cell_for(rng, sg, tiny=(kind == 'tiny'), oblique=(kind == 'oblique'))
+        if kind == 'elongated':
+            cell[:3] = [round(rng.uniform(8, 15), 2) for _ in range(3)]
+            cell[rng.randrange(3)] = round(rng.uniform(90, 220), 2)
         if kind == 'ncs':
             ncs.append(rand_rotation(rng) + [round(rng.uniform(-5, 5), 3) for _ in range(3)])
-    natoms = rng.choice([1, 2, 3, 5, 8, 15, 30]) if kind != 'tiny' else rng.choice([1, 2, 3, 5])
+    natoms = rng.choice([1, 2, 3, 5, 8, 15, 30]) if kind not in ('tiny', 'elongated') else rng.choice([1, 2, 3, 5])
+    if kind == 'elongated':
+        natoms = rng.choice([1, 1, 2])
     span = max(cell[:3]) if kind != 'noncrystal' else rng.choice([5.0, 20.0, 40.0])
     atoms = []
     for i in range(natoms):
@@ -273,7 +282,9 @@ def gen_ns_case(rng, kind=None, rbuild_factors=(1,)):
         alt = rng.choice(['-', '-', '-', 'A', 'B'])
         el = rng.choice(['C', 'C', 'C', 'H', 'D'])
         atoms.append(pos + [alt, el])
-    if kind == 'tiny':
+    if kind == 'elongated':
+        rbuild = rng.choice([3.0, 4.0, 5.0])
+    elif kind == 'tiny':
         rbuild = round(rng.uniform(1.0, 2.5) * max(cell[:3]), 2) if rng.random() < 0.6 else round(rng.uniform(2, 6), 2)
     else:
         rbuild = rng.choice([3.0, 4.0, 5.0, 7.5, 10.0, round(rng.uniform(1.5, 12), 2)])
